@@ -191,9 +191,72 @@ def degenerate_case(case):
     return out, ("index",)
 
 
+_PS = ["compute_tip_position", "correct_force_offset", "correct_tip_offset",
+       "correct_force_slope"]
+#: same step list, different options, on a strongly tilted curve (the
+#: contact estimate of the tip-offset step decides which part of the curve
+#: the slope correction treats as baseline)
+TILT_REQUESTS = {
+    "T1": (_PS, {"correct_tip_offset": {"method": "deviation_from_baseline"},
+                 "correct_force_slope": {"region": "baseline",
+                                         "strategy": "shift"}}, False),
+    "T2": (_PS, {"correct_tip_offset": {"method": "fit_line_polynomial"},
+                 "correct_force_slope": {"region": "baseline",
+                                         "strategy": "shift"}}, False),
+    "T3": (_PS, {"correct_tip_offset": {"method": "frechet_direct_path"},
+                 "correct_force_slope": {"region": "all",
+                                         "strategy": "drift"}}, False),
+    "T4": (_PS[:3], {"correct_tip_offset": {"method": "fit_line_polynomial"}},
+           False),
+}
+
+
+def api_case(case):
+    """Indentation.estimate_contact_point_index after a history of
+    pipelines (and an optional fit) == compute_poc on the *current* force"""
+    from nanite import poc
+    from . import c06
+    out = []
+    drv = c06.DRIVERS["synthetic"]
+    if case.get("tilted"):
+        tr = synth.truth_params("hertz_para", E=3000.0, contact_point=2e-7,
+                                baseline=1e-10)
+        idnt = synth.make_curve("hertz_para", tr, n_app=400, n_ret=200,
+                                x_start=3e-6, depth=1e-6, noise=2e-11,
+                                seed=2, tilt=2e-3, innate_tip=False)
+    else:
+        idnt = drv.fresh_idnt()
+    meths = [p.identifier for p in poc.POC_METHODS]
+    n = 0
+    for step, rid in enumerate(case["requests"]):
+        steps, options, _ = TILT_REQUESTS[rid] if case.get("tilted") \
+            else c06.REQUESTS[rid]
+        idnt.apply_preprocessing(list(steps),
+                                 __import__("copy").deepcopy(options))
+        if case["fit"]:
+            try:
+                idnt.fit_model(model_key="hertz_para")
+            except BaseException:
+                pass
+        for m in meths:
+            got = idnt.estimate_contact_point_index(method=m)
+            want = poc.compute_poc(np.array(idnt["force"], copy=True), m)
+            n += 1
+            if got != want:
+                out.append(V(PROP, "index-valid", site="estimate_contact_"
+                             "point_index", witness=f"{m}:step{step}",
+                             detail=f"after pipelines {case['requests'][:step+1]}"
+                             f" the curve reports contact index {got}, the "
+                             f"estimator gives {want} for the current force",
+                             case=case, kind="api"))
+    return out, ("api", n)
+
+
 def case_fn(case):
     if case["kind"] == "regular":
         return regular_case(case)
+    if case["kind"] == "api":
+        return api_case(case)
     return degenerate_case(case)
 
 
@@ -220,6 +283,17 @@ def cases(tier):
     for f in RECORDED:
         for m in meths:
             cs.append({"kind": "regular", "method": m, "recorded": f})
+    valid = ["V1", "V2", "V5", "V6", "V7"]
+    for a in valid:
+        for b in valid:
+            for fit in (False, True):
+                cs.append({"kind": "api", "requests": [a, b], "fit": fit})
+    for a in TILT_REQUESTS:
+        for b in TILT_REQUESTS:
+            if a != b:
+                for fit in (False, True):
+                    cs.append({"kind": "api", "requests": [a, b],
+                               "fit": fit, "tilted": True})
     for shape in DEGENERATE:
         for n in DEG_LENGTHS:
             for m in meths:
@@ -242,7 +316,7 @@ def run(tier):
     rep.set("transformations_per_array", len(TRANSFORMS))
     rep.set("distinct_nontrivial",
             sum(v for k, v in cl.items() if k[0] in ("regular", "fallback",
-                                                     "index")))
+                                                     "index", "api")))
     rep.set("rule", "full product estimator x model x noise x baseline "
             "fraction x tilt x length, 12 transformations each; degenerate "
             "family 7 shapes x 11 lengths; non-trivial = an index was "
